@@ -37,8 +37,14 @@ func (r *codecResult) undecided(clause, key, why, pos string) {
 // newSymStruct builds the symbolic input: free symbols for every leaf; scaled fields replaced by their
 // specification parametrisation when param is set.
 func newSymStruct(in *absint.Interp, T types.Type, spec ws, param bool, region int) (absint.Value, map[string]*absint.Bits, absint.Node) {
+	return newSymStructNamed(in, "p", "", T, spec, param, region)
+}
+
+// newSymStructNamed is newSymStruct with a symbol-name root and a suffix for the parameter symbols, so that several
+// values can live in one interpreter.
+func newSymStructNamed(in *absint.Interp, root, sfx string, T types.Type, spec ws, param bool, region int) (absint.Value, map[string]*absint.Bits, absint.Node) {
 	d := in.D
-	val := in.Sym("p", T, true)
+	val := in.Sym(root, T, true)
 	params := map[string]*absint.Bits{}
 	dom := absint.True
 	if !param {
@@ -47,14 +53,18 @@ func newSymStruct(in *absint.Interp, T types.Type, spec ws, param bool, region i
 	for _, f := range spec.Fields {
 		switch f.Kind {
 		case kFreq100:
-			q := d.Sym("q("+f.Path+")", 24, false, false)
+			q := d.Sym("q("+f.Path+")"+sfx, 24, false, false)
 			params[f.Path] = q
 			setLeaf(in, val, f.Path, d.MulConst(d.Resize(q, 32, false), 100))
 		case kFreqNC:
-			q := d.Sym("q("+f.Path+")", 24, false, false)
+			q := d.Sym("q("+f.Path+")"+sfx, 24, false, false)
 			params[f.Path] = q
 			q32 := d.Resize(q, 32, false)
-			if region == 0 {
+			if region == -1 {
+				// framing runs: below the range where the 100 Hz and 200 Hz encodings overlap on the wire
+				dom = d.M.And(dom, d.Cmp(token.LSS, q32, d.Const(12000000, 32, false)))
+				setLeaf(in, val, f.Path, d.MulConst(q32, 100))
+			} else if region == 0 {
 				dom = d.M.And(dom, d.Cmp(token.LSS, q32, d.Const(24000000, 32, false)))
 				setLeaf(in, val, f.Path, d.MulConst(q32, 100))
 			} else {
@@ -62,14 +72,16 @@ func newSymStruct(in *absint.Interp, T types.Type, spec ws, param bool, region i
 				setLeaf(in, val, f.Path, d.MulConst(q32, 200))
 			}
 		case kGPSTime:
-			s := d.Sym("sec("+f.Path+")", 32, false, false)
-			fr := d.Sym("frac("+f.Path+")", 8, false, false)
-			rem := d.Sym("rem("+f.Path+")", 22, false, false) // sub-resolution remainder in ns
+			s := d.Sym("sec("+f.Path+")"+sfx, 32, false, false)
+			fr := d.Sym("frac("+f.Path+")"+sfx, 8, false, false)
+			rem := d.Sym("rem("+f.Path+")"+sfx, 22, false, false) // sub-resolution remainder in ns
 			params[f.Path+"#sec"] = s
 			params[f.Path+"#frac"] = fr
 			half := d.Const(3906250/2, 22, false)
 			dom = d.M.And(dom, d.Cmp(token.LSS, rem, d.Const(3906250, 22, false)))
-			if region == 0 {
+			if region == -1 {
+				rem = d.Const(0, 22, false) // framing runs: a value at wire resolution
+			} else if region == 0 {
 				dom = d.M.And(dom, d.Cmp(token.LSS, rem, half))
 			} else {
 				dom = d.M.And(dom, d.Cmp(token.GEQ, rem, half))
